@@ -9,5 +9,5 @@ head = subprocess.run("git -C /repo rev-parse HEAD", shell=True, capture_output=
 json.dump({"repo_commit": head,
            "note": "sha256 (first 20 hex digits) of every source file of /repo/fast-tlsh at the audited commit (pinned tree + the three "
                    "fix: commits); regenerate with lib/mkbaseline.py after a new fix: commit",
-           "files": core.source_hashes()}, open(core.BASELINE, "w"), indent=0, sort_keys=True)
+           "files": core.source_hashes(), "literals": __import__("srcdict").current()}, open(core.BASELINE, "w"), indent=0, sort_keys=True)
 print("baseline written for", head)
